@@ -51,6 +51,7 @@ def run(chk: Check) -> None:
     run_type_param_guard(chk, ix)
     run_planned_internal_errors(chk, ix)
     run_saved_indexes(chk, ix)
+    run_set_pop_guarded(chk, ix)
 
     r1 = chk.rule("R20.1", "every loop that re-queues deferred work has a per-iteration counter compared with a constant bound that exits the loop; type-checker deferral is limited by pass_num < last_pass", floor=7)
     n_loops = 0
@@ -470,3 +471,72 @@ def run_saved_indexes(chk: Check, ix) -> None:
                             r7.ok(key, f.loc(a), norm(a.value))
                         else:
                             r7.violation(key, f.loc(a), f"`{norm(a)}` is an index into `{lname}` before `del {lname}[i]` runs for the indexes in `{dname}`: after an earlier item is deleted the saved index is off by the number of deleted items")
+
+
+def _is_set_expr(e: ast.expr, f) -> bool:
+    if isinstance(e, (ast.Set, ast.SetComp)):
+        return True
+    if isinstance(e, ast.Call) and getattr(e.func, "id", "") in ("set", "frozenset"):
+        return True
+    if isinstance(e, ast.BinOp) and isinstance(e.op, (ast.Sub, ast.BitAnd, ast.BitOr, ast.BitXor)):
+        return _is_set_expr(e.left, f) or _is_set_expr(e.right, f)
+    if isinstance(e, ast.Name):
+        defs = [a.value for a in ast.walk(f.node) if isinstance(a, (ast.Assign, ast.AnnAssign)) and a.value is not None and any(isinstance(t, ast.Name) and t.id == e.id for t in (a.targets if isinstance(a, ast.Assign) else [a.target]))]
+        anns = [norm(a.annotation) for a in ast.walk(f.node) if isinstance(a, ast.AnnAssign) and isinstance(a.target, ast.Name) and a.target.id == e.id]
+        return any(not isinstance(d, ast.Name) and _is_set_expr(d, f) for d in defs) or any(a.lower().startswith("set[") for a in anns)
+    return False
+
+
+def run_set_pop_guarded(chk: Check, ix) -> None:
+    """R20.8: pop() on a set happens only where the set is known to be non-empty."""
+    from ..cfg import branch_conditions
+    r8 = chk.rule("R20.8", "`s.pop()` on a set raises KeyError when the set is empty (an uncaught KeyError is an INTERNAL ERROR); every such call on a set built in the same function (a difference of key sets, a set of found values) is dominated by a test that the set is non-empty: a `while s:` loop, an `if not s:` / `len(s) == 0` exit or re-fill before it, or a tabled reason why it cannot be empty", floor=3)
+    n = 0
+    for q, f in sorted(ix.functions.items()):
+        mn = f.module.name
+        if f.parent is not None or not mn.startswith(("mypy.", "mypyc.")) or ".test" in mn:
+            continue
+        par = None
+        for c in ast.walk(f.node):
+            if not (isinstance(c, ast.Call) and isinstance(c.func, ast.Attribute) and c.func.attr == "pop" and not c.args and not c.keywords and _is_set_expr(c.func.value, f)):
+                continue
+            n += 1
+            par = par or f.module.parents()
+            recv = norm(c.func.value)
+            st = c
+            while not isinstance(st, ast.stmt):
+                st = par[st]
+            key = f"{q}: `{recv}.pop()` only on a non-empty set"
+            guarded = False
+            # inside `while recv:`
+            cur = st
+            while cur is not None and cur is not f.node:
+                p = par.get(cur)
+                if isinstance(p, ast.While) and norm(p.test) == recv:
+                    guarded = True
+                cur = p
+            pos, neg = branch_conditions(par, f.node, st, early_exits=True)
+
+            def says_empty(t: ast.expr) -> bool:
+                tt = norm(t).replace(" ", "")
+                return tt in (f"not{recv}", f"len({recv})==0", f"len({recv})<1", f"not{recv}")
+            def says_nonempty(t: ast.expr) -> bool:
+                tt = norm(t).replace(" ", "")
+                return tt in (recv, f"len({recv})>0", f"len({recv})>=1", f"len({recv})==1")
+            if any(says_nonempty(t) for t in pos) or any(says_empty(t) or (isinstance(t, ast.UnaryOp) and isinstance(t.op, ast.Not) and norm(t.operand) == recv) for t in neg):
+                guarded = True
+            # `if not recv: recv = <non-empty refill>` directly before
+            blk_owner = par.get(st)
+            for fld in ("body", "orelse"):
+                blk = getattr(blk_owner, fld, None)
+                if isinstance(blk, list) and any(x is st for x in blk):
+                    i = [k for k, x in enumerate(blk) if x is st][0]
+                    for prev in blk[:i]:
+                        if isinstance(prev, ast.If) and (norm(prev.test).replace(" ", "") in (f"not{recv}", f"len({recv})==0")) and any(isinstance(a, ast.Assign) and norm(a.targets[0]) == recv for a in prev.body):
+                            guarded = True
+            if guarded:
+                r8.ok(key, f.loc(c))
+            else:
+                r8.violation(key, f.loc(c), f"nothing on the way to `{recv}.pop()` establishes that `{recv}` is non-empty")
+    if n < 3:
+        raise AnalysisError(f"only {n} set.pop() sites found")
